@@ -336,6 +336,8 @@ def shard(sh):
     fd0 = None
     try:
         for k in range(sh["n"]):
+            if run.enough():
+                break
             case = make_case(rng)
             run.case(common.sha12(case), nontrivial=nontrivial(case))
             run.count("kind/" + case["kind"])
